@@ -14,7 +14,7 @@ func init() {
 	register(&Property{
 		ID:          "C14",
 		Technique:   "static analysis: ORDER/FOLLOW rules on the backup request, the checkpoint worker and the restore path; who-may-call enumeration; guard implication by truth table on the purge decision; argument provenance on canonical terms",
-		Explanation: "Decides: (B1) pending in-memory caches are flushed before the checkpoint is requested; (B2) the checkpoint is started inside the apply loop: beginSnapshot asks for it outside its goroutine and is called only from maybeTriggerSnapshot <- applyCommits, GetSnapshot returns only after the checkpoint was started (WaitReady), the result is read only after completion (GetResult waits for done and nothing else), the worker signals started from the engine checkpoint and closes done on every exit; (B3) copying into place never truncates an existing (possibly hard-linked) destination: it is unlinked before it is created; the restore removes and creates files in the data directory only; (B4) a checkpoint is purged only when its index is below the latest snapshot index, which is read from the atomically updated field; (B5) restore closes the engine before touching files and re-opens it after the copies; a kept sst file was verified identical; reopening re-creates the HLL cache, the index manager and the default write batch instead of keeping those bound to the replaced engine; (B2, engines) the mem engine notifies started only after its iterator pinned the view and saves through that iterator; the pebble wrapper notifies only after Checkpoint returned (pebble copies its WAL whole at the end); the rocksdb wrapper arms its notification only under the engine lock; (B4) nothing purges checkpoints inside a restore before the engine is reopened. (B1, write-back) every command that modifies a cached HyperLogLog sketch registers that sketch in the dirty cache before it returns success, the dirty cache is the one Flush purges, and its eviction callback is the write to the engine.",
+		Explanation: "Decides: (B1) pending in-memory caches are flushed before the checkpoint is requested; (B2) the checkpoint is started inside the apply loop: beginSnapshot asks for it outside its goroutine and is called only from maybeTriggerSnapshot <- applyCommits, GetSnapshot returns only after the checkpoint was started (WaitReady), the result is read only after completion (GetResult waits for done and nothing else), the worker signals started from the engine checkpoint and closes done on every exit; (B3) copying into place never truncates an existing (possibly hard-linked) destination: it is unlinked before it is created; the restore removes and creates files in the data directory only; (B4) a checkpoint is purged only when its index is below the latest snapshot index, which is read from the atomically updated field; (B5) restore closes the engine before touching files and re-opens it after the copies; a kept sst file was verified identical; reopening re-creates the HLL cache, the index manager and the default write batch instead of keeping those bound to the replaced engine; (B2, engines) the mem engine notifies started only after its iterator pinned the view and saves through that iterator; the pebble wrapper notifies only after Checkpoint returned (pebble copies its WAL whole at the end); the rocksdb wrapper arms its notification only under the engine lock; (B4) nothing purges checkpoints inside a restore before the engine is reopened. (B1, write-back) every command that modifies a cached HyperLogLog sketch registers that sketch in the dirty cache before it returns success, the dirty cache is the one Flush purges, and its eviction callback is the write to the engine. (B2, directory lock) the checkpoint is written while checkpointDirLock is held exclusively and IsLocalBackupOK/restoreFromPath look at it under the read lock. (B5, kept files) the footer comparison reads both files at the footer offset and the copy loop skips nothing but the LOG file.",
 		NotDecided:  "the rocksdb checkpoint notifies \"started\" from a 20 ms timer because rocksdb does not report when its view is pinned (it is fixed when CreateCheckpoint lists the live files, at its start): whether 20 ms suffices is a timing question no static rule decides (stated in DESIGN.md); equality of the restored data with the state at index i (engine behaviour), rsync, repeated/interleaved backups' timing, that the HLL cache flush is complete (cache internals).",
 		Assumptions: []string{"path conditions as in C01"},
 		Run:         runC14,
